@@ -222,6 +222,21 @@ def _published_before_only(stack, devname, vname):
     return last_set is not None and last_only is not None and last_set < last_only
 
 
+def _last_def_answers_getproperties(stack, devname, vname):
+    """True iff the last definition of this vector the driver emitted was the answer to a getProperties (which carries
+    no payload and is not followed by an update), as opposed to a spontaneous (re)definition by the driver."""
+    last = None
+    for i, (origin, sname, v) in enumerate(stack.router_log):
+        if origin == "driver" and v[0] == "defBLOBVector" and dict(v[1]).get("device") == devname and dict(v[1]).get("name") == vname:
+            last = i
+    return last is not None and stack.router_cause[last] == "getProperties"
+
+
+def _ever_published(stack, devname, vname):
+    return any(v[0] == "setBLOBVector" and dict(v[1]).get("device") == devname and dict(v[1]).get("name") == vname
+               for _, _, v in stack.router_log)
+
+
 def compare_view(sim, who, lib_client, model, scopes, stack, devname, truth, viol, facts, applied=None):
     """Compare one client's view of one device with the truth. Appends violations."""
     spec = stack.specs[devname]
@@ -269,6 +284,20 @@ def compare_view(sim, who, lib_client, model, scopes, stack, devname, truth, vio
         for en, te in t_els.items():
             me = mv.get_element(en)
             if tv["kind"] == "BLOB":
+                tvv = te["value"]
+                if me.value is None and tvv is not None and len(tvv.binary) > 0 and applied is not None and getattr(lib_client, "blob_connection_handler", None) is not None:
+                    # the device holds a payload the client does not show. Legitimate only through the two INDI races:
+                    f2 = dict(facts, kind="BLOB", missing_payload=True)
+                    inv = _inversion(applied, devname, vname)
+                    if inv:
+                        f2["cross_connection_inversion"] = True
+                    elif _published_before_only(stack, devname, vname) or not _ever_published(stack, devname, vname):
+                        f2["published_before_enableblob_only"] = True
+                    elif _last_def_answers_getproperties(stack, devname, vname):
+                        f2["redefined_by_getproperties"] = True
+                    viol.append({"clause": "C01.value", "detail": f"{ctx}: {vname}.{en}: the device holds a {len(tvv.binary)}-byte BLOB, the client shows none"
+                                 + (f"; messages applied out of emission order: {inv}" if inv else ""), "facts": f2})
+                    return
                 if not blob_matches(me.value, te["value"]):
                     viol.append({"clause": "C01.value", "detail": f"{ctx}: {vname}.{en} BLOB mirror {str(me.value)[:80]!r} is neither unset nor the driver's payload", "facts": dict(facts, kind="BLOB")})
                     return
@@ -336,6 +365,7 @@ def execute(scen):
     net = scen["net"]
     cfg = NetConfig(latency=net["latency"], frag_default=net["frag"], hwm=net["hwm"])
     viol = []
+    soft = []
     probes = {}
     facts = {"latency": net["latency"], "frag": net["frag"]}
     judged = 0
@@ -374,6 +404,13 @@ def execute(scen):
             if any(n.started for n in stack.clients):
                 check_all(sim, stack, viol, facts)
                 judged += 1
+                # violations carrying one of the INDI-race markers (candidates for the known findings K01-K06) do not end the
+                # run: they are reported at the end, and the rest of the history is still judged
+                for v in list(viol):
+                    if any(v["facts"].get(k) for k in ("cross_connection_inversion", "published_before_enableblob_only", "redefined_by_getproperties")):
+                        viol.remove(v)
+                        if len(soft) < 3:
+                            soft.append(v)
 
         for st in scen["steps"]:
             if viol:
@@ -423,7 +460,7 @@ def execute(scen):
     ops = sorted({s["op"] for s in scen["steps"]})
     sig = repr((ops, kinds, net["latency"], net["frag"], net["hwm"], depth, scen["nclients"], len(scen["devices"])))
     faults = {"temporary_stall": probes.pop("temporary_stall")} if "temporary_stall" in probes else {}
-    return {"violations": viol, "digest": digest, "probes": probes, "faults": faults, "steps": steps, "vtime": vtime, "sig": sig,
+    return {"violations": viol + soft, "digest": digest, "probes": probes, "faults": faults, "steps": steps, "vtime": vtime, "sig": sig,
             "nontrivial": judged > 0 and changed,
             "sample": {"devices": [s["name"] for s in scen["devices"]], "net": net, "steps": scen["steps"][:12]}}
 
